@@ -57,6 +57,9 @@ def oracle(c, r):
             bad.append({'explicit .txt does not present the saved data': d})
     if r['kernprof_view'] != r['viewer_cli']:
         bad.append({'kernprof --view differs from `python -m line_profiler` on the saved file': [r['kernprof_view'][:400], r['viewer_cli'][:400], r['viewer_cli_err']]})
+    cl = r.get('explicit_c_locale')
+    if cl is not None and not (cl['rc'] == 0 and cl['txt'] and cl['timestamped'] and cl['lprof'] and cl.get('utf8') and cl.get('has_line') and cl.get('same_as_timestamped')):
+        bad.append({'explicit profiler in a process with a non-UTF-8 locale (non-ASCII text in a profiled line)': cl})
     od = r.get('overlapping_dump')
     if od is not None and not (od['written'] and od['equal']):
         bad.append({'a dump requested while another dump was being written does not hold the statistics of that moment': od})
